@@ -260,11 +260,17 @@ impl Dumper {
                     if let Ok(i) = Instance::resolve_closure(def, &args, ClosureKind::FnOnce) {
                         once = json!(self.inst(i));
                     }
+                    // the closure body itself (called through &self / &mut self / self according to its kind)
+                    let mut body = Value::Null;
+                    if let Ok(i) = Instance::resolve_closure(def, &args, ClosureKind::FnMut) {
+                        body = json!(self.inst(i));
+                    }
                     let o = rec.as_object_mut().unwrap();
                     o.insert("kind".into(), json!("closure"));
                     o.insert("name".into(), json!(def.name()));
                     o.insert("args".into(), a);
                     o.insert("call_once".into(), once);
+                    o.insert("call_mut".into(), body);
                 }
                 RigidTy::Coroutine(def, args) => {
                     let a = self.args_json(&args);
